@@ -228,6 +228,7 @@ MARKUP = {
     'list': '- a\n- b\n  - c\n  - d\n- e\n', 'list_para': '- a\n\n  b\n- c\n', 'enum': '+ a\n+ b\n3. c\n', 'term': '/ a: b\n/ c: d\n  e\n', 'term_bs': '/ a \\ : b\n',
     'list_cmt': '- a // c\n- b /* d */\n', 'list_lc_own_line': '- a\n  // c\n  b\n', 'term_lc': '/ t: a\n  // c\n  b\n', 'list_code': '- #f(1)\n- #{ 1 }\n- #[x]\n',
     'raw_inline': 'a `b  c` d\n', 'raw_block': '```rust\nfn main() {\n    x  \n}\n```\n', 'raw_block_indent': '- ```py\n  a\n    b\n  ```\n', 'raw_slashes': '```\n// not a comment\n```\n',
+    'raw_block_ff': '```lisp\n(defun first ())\n\x0c\n(defun second ())\n```\n', 'raw_block_vt': '```\ncolumn one\x0bcolumn two\n```\n', 'raw_block_nel': '```\na\u0085b\u2028c\n```\n',
     'raw_one_line': '```typ a b ```\n', 'raw_lang_sp': '``` x```\n', 'raw_trail_blank': '```\nline   \n  \n```\n',
     'label_ref': 'text <lbl> @lbl @lbl[p. 1]\n', 'ref_supplement_code': '@thm[Theorem #n] and @thm[Thm. #n;bis] and @thm[the theorem /* c */ above] @eq[#f(1) x]\n',
     'unicode_trailing': 'text\u3000\nnext\u00a0\n= Heading\u2003\n- item\u2002\n// c\u3000\n#let x = 1\u00a0\n', 'link': 'https://example.com/a_b text\n', 'escape': '\\# \\* \\_ \\\\ \\u{1f600}\n', 'shorthand': "a -- b --- c ... ~ -?\n",
